@@ -207,6 +207,7 @@ type clRun struct {
 	lastList             []types.Replica
 	removedAt            map[string]time.Duration // address -> time it was last seen leaving the list
 	abortedWO            map[string]bool          // address -> its last rebuild ended without a promotion (left the list while WO)
+	electedAddrs         []string                 // who each cold-start election picked (index = election number - 1)
 	halfRebuiltElections []int                    // cold-start election numbers that picked such a replica (D25)
 	reverts              []*revertRec             // successful volume reverts (for elections of replicas that missed them)
 	errSince             map[string]time.Duration // address -> when it was first seen listed in mode ERR (C05)
@@ -1362,11 +1363,14 @@ func (cr *clRun) judgeIO(o *ioOp) {
 			cr.compares++
 			if ok, why, bad := cr.m.check2(o.buf, o.off, false); !ok {
 				clause := "read-returned-wrong-data"
+				vprop := "C04"
 				if o.idx >= 1000000 && len(o.frames) > 0 && cr.addrOf(o.frames[len(o.frames)-1].target) == cr.lastPromoted {
 					// a verification read right after a promotion, served by the promoted
-					// replica from its in-memory block map: that is C07's clause
-					cr.viol("C07", "promoted-replica-serves-wrong-data", "read %d served by the just promoted %s: %s", o.idx, cr.lastPromoted, why)
-					return
+					// replica from its in-memory block map: that is C07's clause (the known-finding
+					// classifiers below apply to it as to any other read: the verification reads can be
+					// judged before the promotion's own directory comparison has run)
+					clause, vprop = "promoted-replica-serves-wrong-data", "C07"
+					why = fmt.Sprintf("served by the just promoted %s: %s", cr.lastPromoted, why)
 				}
 				for _, rn := range cr.c.reps {
 					if w := cr.unalignedWriteWhileWO(rn.addr, bad); w != nil {
@@ -1387,6 +1391,10 @@ func (cr *clRun) judgeIO(o *ioOp) {
 					clause += "/write-held-by-minority-of-rf"
 					why += cr.d26Note(w)
 				}
+				if w, f, e := cr.electedCountingFailedWrite(bad); w != nil && !strings.Contains(clause, "/") {
+					clause += "/elected-replica-counted-failed-write"
+					why += cr.d31Note(w, f, e)
+				}
 				if !strings.Contains(clause, "/") {
 					for _, rn := range cr.c.reps {
 						if w := cr.punchedThenRebuilt(rn.addr, bad); w != nil {
@@ -1396,7 +1404,7 @@ func (cr *clRun) judgeIO(o *ioOp) {
 						}
 					}
 				}
-				cr.viol("C04", clause, "read %d off=%d len=%d: %s", o.idx, o.off, o.n, why)
+				cr.viol(vprop, clause, "read %d off=%d len=%d: %s", o.idx, o.off, o.n, why)
 				return
 			}
 			if rw == 0 {
@@ -1576,6 +1584,39 @@ func (cr *clRun) punchedThenRebuilt(addr string, s int64) *ioOp {
 
 func (cr *clRun) d28Note(w *ioOp, addr string) string {
 	return fmt.Sprintf(" [%s had applied write %d (off=%d len=%d, acknowledged=%v) into this block, which punches the block's old copy out of its automatic snapshot; it has been rebuilt since and the punched snapshot was not copied again]", addr, w.idx, w.off, w.n, w.acked)
+}
+
+// electedCountingFailedWrite recognises known finding D31: the acknowledged value of sector s comes from a
+// write W that a later cold-start election lost by picking a replica E that did not hold W but had, earlier,
+// applied a write F that FAILED towards the initiator. A replica counts every write it applies, whatever the
+// controller told the initiator, so E's revision counter is as high as (or higher than) that of the replicas
+// holding W: the counters tie (the first to register wins) or E even leads, and everybody is rebuilt from E.
+func (cr *clRun) electedCountingFailedWrite(s int64) (*ioOp, *ioOp, string) {
+	if s < 0 || s >= int64(len(cr.m.val)) {
+		return nil, nil, ""
+	}
+	idx := int(cr.m.val[s]>>32) - 1
+	for _, w := range cr.ios {
+		if w.idx != idx || !w.acked {
+			continue
+		}
+		for e := w.coldStarts0; e < cr.coldStarts && e < len(cr.electedAddrs); e++ {
+			el := cr.electedAddrs[e]
+			if w.applied[el] {
+				continue
+			}
+			for _, f := range cr.ios {
+				if f.data != nil && !f.acked && f.done && f.applied[el] && f.coldStarts0 <= e && f.idx != w.idx {
+					return w, f, el
+				}
+			}
+		}
+	}
+	return nil, nil, ""
+}
+
+func (cr *clRun) d31Note(w, f *ioOp, el string) string {
+	return fmt.Sprintf(" [write %d was acknowledged; a later cold-start election picked %s, which does not hold it but had applied write %d, which failed towards the initiator, and counted it]", w.idx, el, f.idx)
 }
 
 func (cr *clRun) d26Note(w *ioOp) string {
@@ -1879,6 +1920,9 @@ func (cr *clRun) settle() {
 				} else if w := cr.ackedByMinorityOfRF(bad); w != nil {
 					clause += "/write-held-by-minority-of-rf"
 					why += cr.d26Note(w)
+				} else if w, f, e := cr.electedCountingFailedWrite(bad); w != nil {
+					clause += "/elected-replica-counted-failed-write"
+					why += cr.d31Note(w, f, e)
 				} else if w := cr.punchedThenRebuilt(rn.addr, bad); w != nil {
 					clause += "/punched-snapshot-not-resynced"
 					why += cr.d28Note(w, rn.name)
